@@ -70,7 +70,7 @@ func buildSim(race bool) (string, error) {
 		if err != nil {
 			return "", fmt.Errorf("overlay: %w", err)
 		}
-		fmt.Fprintf(os.Stderr, "[check] overlay: %d files scanned, %d rewritten, %d injected, %d with ordered map ranges\n", stt.FilesScanned, stt.FilesRewritten, stt.Injected, stt.OrderedRanges)
+		fmt.Fprintf(os.Stderr, "[check] overlay: %d files scanned, %d rewritten, %d injected, %d with fixed-order ranges / seam hooks\n", stt.FilesScanned, stt.FilesRewritten, stt.Injected, stt.OrderedRanges)
 		args = append(args, "-overlay", ov)
 	}
 	if repoDir != "/repo" {
